@@ -39,10 +39,10 @@ type Solver struct {
 	timeout  int
 	// mirror of what the solver holds, so that a query the primary solver gives up on can be
 	// put to a second solver from scratch
-	decls     []string
-	stack     [][]string
+	decls        []string
+	stack        [][]string
 	lastFallback bool
-	Fallbacks int // queries answered by the second solver after "unknown" from the first
+	Fallbacks    int // queries answered by the second solver after "unknown" from the first
 }
 
 // fallbackBin is asked once, one-shot, when the incremental solver answers unknown.
